@@ -314,3 +314,64 @@ def positional_name_mismatches(repo, want=None, stats=None):
                     continue
                 if arg.id in allp and pos[i] != arg.id:
                     yield f, call, callee, i, arg.id, pos[i]
+
+
+def null_contradictions(cls):
+    """Engler-style contradiction: an attribute that one method of *cls* compares with None (so None is a state the class expects)
+    and another dereferences with no such test in force.  -> [(method FuncInfo, node, attribute name)]"""
+    import ast
+    from ..model import walk_no_nested
+
+    def implies(t, attr, truth):
+        """does *t* evaluating to *truth* imply self.<attr> is not None?"""
+        if isinstance(t, ast.Compare) and len(t.ops) == 1 and isinstance(t.left, ast.Attribute) and isinstance(t.left.value, ast.Name) and t.left.value.id == "self" \
+                and t.left.attr == attr and isinstance(t.comparators[0], ast.Constant) and t.comparators[0].value is None:
+            return isinstance(t.ops[0], ast.IsNot) if truth else isinstance(t.ops[0], ast.Is)
+        if isinstance(t, ast.BoolOp):
+            conj = isinstance(t.op, ast.And)
+            if conj == truth:  # (A and B) is true / (A or B) is false: every operand has that value
+                return any(implies(v, attr, truth) for v in t.values)
+            return all(implies(v, attr, truth) for v in t.values)
+        if isinstance(t, ast.UnaryOp) and isinstance(t.op, ast.Not):
+            return implies(t.operand, attr, not truth)
+        return False
+
+    tested = set()
+    for m in cls.methods.values():
+        for n in walk_no_nested(m.node):
+            if isinstance(n, ast.Compare) and len(n.ops) == 1 and isinstance(n.ops[0], (ast.Is, ast.IsNot)) and isinstance(n.left, ast.Attribute) \
+                    and isinstance(n.left.value, ast.Name) and n.left.value.id == "self" and isinstance(n.comparators[0], ast.Constant) and n.comparators[0].value is None:
+                tested.add(n.left.attr)
+    out = []
+    for m in cls.methods.values():
+        parents = {}
+        for n in ast.walk(m.node):
+            for ch in ast.iter_child_nodes(n):
+                parents[ch] = n
+        for n in walk_no_nested(m.node):
+            if not (isinstance(n, ast.Attribute) and isinstance(n.value, ast.Attribute) and isinstance(n.value.value, ast.Name) and n.value.value.id == "self" and n.value.attr in tested):
+                continue
+            attr = n.value.attr
+            guarded = False
+            cur = n
+            while cur in parents and not guarded:
+                par = parents[cur]
+                if isinstance(par, (ast.If, ast.IfExp)):
+                    in_body = cur in par.body if isinstance(par, ast.If) else cur is par.body
+                    in_else = cur in par.orelse if isinstance(par, ast.If) else cur is par.orelse
+                    if (in_body and implies(par.test, attr, True)) or (in_else and implies(par.test, attr, False)):
+                        guarded = True
+                if isinstance(par, ast.BoolOp) and isinstance(par.op, ast.And) and cur in par.values:
+                    if any(implies(v, attr, True) for v in par.values[: par.values.index(cur)]):
+                        guarded = True
+                if isinstance(par, ast.FunctionDef) and par is m.node:
+                    # early exit: `if self.attr is None: return / raise` earlier in the function body
+                    for st in m.node.body:
+                        if st.lineno >= n.lineno:
+                            break
+                        if isinstance(st, ast.If) and implies(st.test, attr, False) and st.body and isinstance(st.body[-1], (ast.Return, ast.Raise)):
+                            guarded = True
+                cur = par
+            if not guarded:
+                out.append((m, n, attr))
+    return out
